@@ -18,6 +18,8 @@ HERE = os.path.dirname(os.path.dirname(os.path.abspath(__file__)))
 sys.path.insert(0, HERE)
 os.chdir(HERE)
 PIDS = ['C%02d' % i for i in range(1, 21)]
+if os.environ.get('GDSTK_MX_ONLY'):
+    PIDS = os.environ['GDSTK_MX_ONLY'].split(',')          # restrict to some checks (development)
 
 
 def one(path):
